@@ -394,7 +394,7 @@ theorem mu_mkchunks {s : State} {n f k : Nat} (hen : enabled s (.mkchunks n f k)
   simp only [enabled, guards, List.all_cons, List.all_nil, Bool.and_true, Bool.and_eq_true,
     Bool.or_eq_true, bne_iff_ne, ne_eq, beq_iff_eq, hph, not_true_eq_false, false_or,
     decide_eq_true_eq] at hen
-  obtain ⟨_, hobj, _, hg⟩ := hen
+  obtain ⟨_, hobj, _, hg, _⟩ := hen
   have hz : s.nch n f = 0 := hg.1.1.1.1.1
   have hk : 0 < k := hg.1.1.1.1.2
   simp only [mu, noChunks]
@@ -696,24 +696,26 @@ theorem potObj_frame {s : State} {e : Ev} (o : Obj) (hl : (apply s e).launches =
       potMeta ((apply s e).m o) + (if s.launches.contains (o, s.inc) then 0 else 3) := by
   simp [potObj, hl, hi]
 
+theorem sched_quiet {s : State} {e : Ev} (h : e.sched s = true) : e.quiet s = true := by
+  cases e <;> simp_all [Ev.sched, Ev.quiet, Ev.failing, Ev.structural]
+
 theorem progress_of_obj {s : State} {e : Ev} {o : Obj} (hen : enabled s e = true)
-    (hq : e.quiet s = true) (hm : ∀ n f k, e ≠ .mkchunks n f k) (hr : e ≠ .refresh)
+    (hs : e.sched s = true) (hm : ∀ n f k, e ≠ .mkchunks n f k) (hr : e ≠ .refresh)
     (hh : s.hasObj o = true) (hlt : potObj (apply s e) o < potObj s o) : Progress s e :=
-  ⟨hq, hen, mu_lt_of_obj hen hq hm hr ⟨o, hasObj_mem_objs hh, hlt⟩⟩
+  ⟨hs, hen, mu_lt_of_obj hen (sched_quiet hs) hm hr ⟨o, hasObj_mem_objs hh, hlt⟩⟩
 
 theorem progress_W {s : State} {o : Obj} {x : Sentinel} (hen : enabled s (.W o x) = true)
-    (hx : x = .complete ∨ x = .disabled) (hs : (s.m o).seen.has x = false) :
+    (hx : x = .complete) (hs : (s.m o).seen.has x = false) :
     Progress s (.W o x) := by
-  refine progress_of_obj hen ?_ (by simp) (by simp) (en_W hen).2.1 ?_
-  · rcases hx with rfl | rfl <;> simp [Ev.quiet, Ev.failing, Ev.structural]
-  · rw [potObj_frame o (by simp [apply_launches]) (by simp [apply_inc]), potObj, apply_m]
-    simp only [if_true]
-    exact Nat.add_lt_add_right
-      (potMeta_put_lt _ _ (by rcases hx with rfl | rfl <;> simp) hs) _
+  subst hx
+  refine progress_of_obj hen (by simp [Ev.sched]) (by simp) (by simp) (en_W hen).2.1 ?_
+  rw [potObj_frame o (by simp [apply_launches]) (by simp [apply_inc]), potObj, apply_m]
+  simp only [if_true]
+  exact Nat.add_lt_add_right (potMeta_put_lt _ _ (by simp) hs) _
 
 theorem progress_R {s : State} {o : Obj} (hen : enabled s (.R o .complete) = true)
     (hs : (s.m o).seen.has .complete = false) : Progress s (.R o .complete) := by
-  refine progress_of_obj hen (by simp [Ev.quiet, Ev.failing, Ev.structural]) (by simp) (by simp)
+  refine progress_of_obj hen (by simp [Ev.sched]) (by simp) (by simp)
     (en_R hen).2.1 ?_
   rw [potObj_frame o (by simp [apply_launches]) (by simp [apply_inc]), potObj, apply_m]
   simp only [if_true]
@@ -723,7 +725,7 @@ theorem progress_launch {s : State} {o : Obj} (h : launchOk s o = true) :
     Progress s (.launch o) := by
   have hen : enabled s (.launch o) = true := by simp [enabled, guards, h]
   have hq : (Ev.launch o).quiet s = true := by simp [Ev.quiet, Ev.failing, Ev.structural]
-  refine progress_of_obj hen hq (by simp) (by simp) (launchOk_phase h).2.2.2.2 ?_
+  refine progress_of_obj hen (by simp [Ev.sched]) (by simp) (by simp) (launchOk_phase h).2.2.2.2 ?_
   rcases obj_step hen hq o with h' | h'
   · exact h'.1
   · -- the state of the object changes from none to queued
@@ -735,36 +737,35 @@ theorem progress_launch {s : State} {o : Obj} (h : launchOk s o = true) :
       rw [apply_m]; simp [put, has_add]
     exact st_ne_none_of_seen (Or.inl rfl) this h1
 
-/-- a submitted job that mrp has not yet seen complete can always move on: it starts
-(`_log`), ends (`_complete`), or its `_complete` is read from the journal -/
+/-- a submitted job that is alive and that mrp has not yet seen complete can always move on:
+it starts (`_log`), ends (`_complete`), or its `_complete` is read from the journal -/
 theorem job_progress {s : State} {o : Obj} (hr : o.r ≠ .fork) (hh : s.hasObj o = true)
     (hph : s.phase ≠ .crashed)
     (hc : (s.m o).disk.has .errors = false ∧ (s.m o).disk.has .assert = false)
-    (hj : (s.m o).disk.has .jobinfo = true) (hcomp : (s.m o).seen.has .complete = false) :
-    ∃ e, Progress s e := by
+    (hj : (s.m o).disk.has .jobinfo = true) (hcomp : (s.m o).seen.has .complete = false)
+    (halive : (s.m o).disk.has .complete = false → o ∈ s.alive) :
+    ∃ e, Progress s e ∧ e.node = some o.n := by
   have hjob : o.r.isJob = true := by cases h : o.r <;> simp_all [Role.isJob]
   simp only [SSet.has] at hj hc
-  by_cases hlog : (s.m o).disk.has .log = true
-  · by_cases hco : (s.m o).disk.has .complete = true
-    · refine ⟨.R o .complete, progress_R ?_ hcomp⟩
-      simp [enabled, guards, hph, hh, hco]
-    · have hco' : (s.m o).disk.has .complete = false := by simpa using hco
-      have hen : enabled s (.jobend o .complete) = true := by
+  by_cases hco : (s.m o).disk.has .complete = true
+  · refine ⟨.R o .complete, progress_R ?_ hcomp, rfl⟩
+    simp [enabled, guards, hph, hh, hco]
+  · have hco' : (s.m o).disk.has .complete = false := by simpa using hco
+    have hal := halive hco'
+    by_cases hlog : (s.m o).disk.has .log = true
+    · have hen : enabled s (.jobend o .complete) = true := by
         simp only [SSet.has] at hlog hco'
-        simp [enabled, guards, hjob, hj, hlog, hco', hc.2]
-      refine ⟨.jobend o .complete, progress_of_obj hen
-        (by simp [Ev.quiet, Ev.failing, Ev.structural]) (by simp) (by simp) hh ?_⟩
+        simp [enabled, guards, hjob, hj, hlog, hco', hc.2, hal]
+      refine ⟨.jobend o .complete, progress_of_obj hen (by simp [Ev.sched]) (by simp) (by simp) hh ?_, rfl⟩
       rw [potObj_frame o (by simp [apply_launches]) (by simp [apply_inc]), potObj, apply_m]
       simp only [if_true]
       exact Nat.add_lt_add_right (potMeta_toDisk_lt _ _ (by simp) hco') _
-  · have hlog' : (s.m o).disk.has .log = false := by simpa using hlog
-    have hen : enabled s (.joblog o) = true := by simp [enabled, guards, hjob, hj]
-    refine ⟨.joblog o, progress_of_obj hen
-      (by simp [Ev.quiet, Ev.failing, Ev.structural]) (by simp) (by simp) hh ?_⟩
-    rw [potObj_frame o (by simp [apply_launches]) (by simp [apply_inc]), potObj, apply_m]
-    simp only [if_true]
-    exact Nat.add_lt_add_right (potMeta_joblog_lt _ hlog') _
-
+    · have hlog' : (s.m o).disk.has .log = false := by simpa using hlog
+      have hen : enabled s (.joblog o) = true := by simp [enabled, guards, hjob, hj, hal]
+      refine ⟨.joblog o, progress_of_obj hen (by simp [Ev.sched]) (by simp) (by simp) hh ?_, rfl⟩
+      rw [potObj_frame o (by simp [apply_launches]) (by simp [apply_inc]), potObj, apply_m]
+      simp only [if_true]
+      exact Nat.add_lt_add_right (potMeta_joblog_lt _ hlog') _
 
 theorem chunkSum_none_of {cs : List (Option MState)} (h1 : none ∈ cs)
     (h2 : ∀ c ∈ cs, c ≠ some .failed) : chunkSum cs = .none := by
@@ -804,19 +805,20 @@ theorem split_progress {s : State} (hobj : ObjsInv s) (hrole : RoleInv s) (hl : 
     (hc : s.cachedOf n = .running) (hclean : CleanNode s n) (hnd : fmDone s n f = false)
     (hkind : s.kind n ≠ .pipeline) (hj : s.st ⟨n, f, .join⟩ = none)
     (hcs : chunkSum (chunkStates s n f) = .none)
-    (hsc : (s.m ⟨n, f, .split⟩).seen.has .complete = false) : ∃ e, Progress s e := by
+    (hsc : (s.m ⟨n, f, .split⟩).seen.has .complete = false) (halive : AliveNode s n) :
+    ∃ e, Progress s e ∧ e.node = some n := by
   have hhS := hasObj_of hn hf .split (by simp)
   have hphc : s.phase ≠ .crashed := by rw [hph]; simp
   by_cases hsj : (s.m ⟨n, f, .split⟩).disk.has .jobinfo = true
-  · exact job_progress (by simp) hhS hphc (hclean f .split) hsj hsc
+  · exact job_progress (by simp) hhS hphc (hclean f .split) hsj hsc (halive f .split (by simp) hsj)
   have hsj' : (s.m ⟨n, f, .split⟩).disk.has .jobinfo = false := by simpa using hsj
   have hsn := st_none_of hobj hrole (o := ⟨n, f, .split⟩) (by simp) (hclean f .split) hsj' hsc
   have hready := forkState_ready_of hnd (st_not_failed hobj (hclean f .fork)) hj hcs hsn
   cases hk : s.kind n
   · -- non-splitting stage: mrp writes the stub
-    refine ⟨.W ⟨n, f, .split⟩ .complete, progress_W ?_ (Or.inl rfl) hsc⟩
+    refine ⟨.W ⟨n, f, .split⟩ .complete, progress_W ?_ rfl hsc, rfl⟩
     simp [enabled, guards, hphc, hhS, mrpWriteOk, hph, hk, hc, hready]
-  · refine ⟨.launch ⟨n, f, .split⟩, progress_launch ?_⟩
+  · refine ⟨.launch ⟨n, f, .split⟩, progress_launch ?_, rfl⟩
     simp [launchOk, hph, hhS, hc, not_launched hl hsj', hnd, hk, hready]
   · exact absurd hk hkind
 
@@ -826,8 +828,8 @@ phase) whose objects carry no failure can always move on — whatever the rest o
 the pipestance looks like -/
 theorem fork_progress {s : State} (hobj : ObjsInv s) (hrole : RoleInv s) (hl : LaunchInv s)
     {n f : Nat} (hn : n < s.nodes.length) (hf : f ∈ s.forksOf n) (hph : s.phase = .normal)
-    (hc : s.cachedOf n = .running) (hclean : CleanNode s n) (hnd : fmDone s n f = false) :
-    ∃ e, Progress s e := by
+    (hc : s.cachedOf n = .running) (hclean : CleanNode s n) (hnd : fmDone s n f = false)
+    (halive : AliveNode s n) : ∃ e, Progress s e ∧ e.node = some n := by
   have hphc : s.phase ≠ .crashed := by rw [hph]; simp
   have hhF := hasObj_of hn hf .fork (by simp)
   have hhJ := hasObj_of hn hf .join (by simp)
@@ -839,15 +841,15 @@ theorem fork_progress {s : State} (hobj : ObjsInv s) (hrole : RoleInv s) (hl : L
         not_seen_of_not_disk hobj (hclean f .fork).2, Or.inl h⟩
       rw [hnd] at this; cases this
   by_cases hkp : s.kind n = .pipeline
-  · refine ⟨.W ⟨n, f, .fork⟩ .complete, progress_W ?_ (Or.inl rfl) hFc⟩
+  · refine ⟨.W ⟨n, f, .fork⟩ .complete, progress_W ?_ rfl hFc, rfl⟩
     simp [enabled, guards, hphc, hhF, mrpWriteOk, hph, hc, hnd, hkp]
   by_cases hjc : (s.m ⟨n, f, .join⟩).seen.has .complete = true
   · have := st_complete_of hobj (hclean f .join) hjc
-    refine ⟨.W ⟨n, f, .fork⟩ .complete, progress_W ?_ (Or.inl rfl) hFc⟩
+    refine ⟨.W ⟨n, f, .fork⟩ .complete, progress_W ?_ rfl hFc, rfl⟩
     simp [enabled, guards, hphc, hhF, mrpWriteOk, hph, hc, hnd, this]
   have hjc' : (s.m ⟨n, f, .join⟩).seen.has .complete = false := by simpa using hjc
   by_cases hjj : (s.m ⟨n, f, .join⟩).disk.has .jobinfo = true
-  · exact job_progress (by simp) hhJ hphc (hclean f .join) hjj hjc'
+  · exact job_progress (by simp) hhJ hphc (hclean f .join) hjj hjc' (halive f .join (by simp) hjj)
   have hjj' : (s.m ⟨n, f, .join⟩).disk.has .jobinfo = false := by simpa using hjj
   have hjn := st_none_of hobj hrole (o := ⟨n, f, .join⟩) (by simp) (hclean f .join) hjj' hjc'
   have hnf : ∀ c ∈ chunkStates s n f, c ≠ some .failed := by
@@ -866,19 +868,19 @@ theorem fork_progress {s : State} (hobj : ObjsInv s) (hrole : RoleInv s) (hl : L
           have hen : enabled s (.mkchunks n f 1) = true := by
             simp [enabled, guards, hphc, hhF, hk, hph, hz, hc, hnd, hss, hjn]
           exact ⟨.mkchunks n f 1,
-            by simp [Ev.quiet, Ev.failing, Ev.structural, hph], hen,
-            mu_mkchunks hen (by simp [Ev.quiet, Ev.failing, Ev.structural, hph])⟩
-        · refine ⟨.launch ⟨n, f, .join⟩, progress_launch ?_⟩
+            ⟨by simp [Ev.sched, hph], hen,
+             mu_mkchunks hen (by simp [Ev.quiet, Ev.failing, Ev.structural, hph])⟩, rfl⟩
+        · refine ⟨.launch ⟨n, f, .join⟩, progress_launch ?_, rfl⟩
           simp [launchOk, hph, hhJ, hc, not_launched hl hjj', hnd, hk, hjn, hz, hss]
         · exact absurd hk hkp
       · have hcs : chunkSum (chunkStates s n f) = .none := by simp [chunkStates, hz, chunkSum]
-        exact split_progress hobj hrole hl hn hf hph hc hclean hnd hkp hjn hcs (by simpa using hsc)
+        exact split_progress hobj hrole hl hn hf hph hc hclean hnd hkp hjn hcs (by simpa using hsc) halive
     · cases hk : s.kind n
       · -- non-splitting stage: the join stub
-        refine ⟨.W ⟨n, f, .join⟩ .complete, progress_W ?_ (Or.inl rfl) hjc'⟩
+        refine ⟨.W ⟨n, f, .join⟩ .complete, progress_W ?_ rfl hjc', rfl⟩
         simp [enabled, guards, hphc, hhJ, mrpWriteOk, hph, hk, hc, hnd, hjn, hacc]
         omega
-      · refine ⟨.launch ⟨n, f, .join⟩, progress_launch ?_⟩
+      · refine ⟨.launch ⟨n, f, .join⟩, progress_launch ?_, rfl⟩
         simp [launchOk, hph, hhJ, hc, not_launched hl hjj', hnd, hk, hjn, hz, hacc]
       · exact absurd hk hkp
   · -- some chunk is not yet seen complete
@@ -893,19 +895,19 @@ theorem fork_progress {s : State} (hobj : ObjsInv s) (hrole : RoleInv s) (hl : L
     obtain ⟨i, hi, hic⟩ := this
     have hhC := hasObj_of hn hf (.chunk i) (by intro j hj; cases hj; exact hi)
     by_cases hcj : (s.m ⟨n, f, .chunk i⟩).disk.has .jobinfo = true
-    · exact job_progress (by simp) hhC hphc (hclean f (.chunk i)) hcj hic
+    · exact job_progress (by simp) hhC hphc (hclean f (.chunk i)) hcj hic (halive f (.chunk i) (by simp) hcj)
     have hcj' : (s.m ⟨n, f, .chunk i⟩).disk.has .jobinfo = false := by simpa using hcj
     have hcn := st_none_of hobj hrole (o := ⟨n, f, .chunk i⟩) (by simp) (hclean f (.chunk i))
       hcj' hic
     by_cases hsc : (s.m ⟨n, f, .split⟩).seen.has .complete = true
     · have hss := st_complete_of hobj (hclean f .split) hsc
-      refine ⟨.launch ⟨n, f, .chunk i⟩, progress_launch ?_⟩
+      refine ⟨.launch ⟨n, f, .chunk i⟩, progress_launch ?_, rfl⟩
       simp [launchOk, hph, hhC, hc, not_launched hl hcj', hnd, hkp, hcn, hss, hjn]
     · have hcs : chunkSum (chunkStates s n f) = .none := by
         apply chunkSum_none_of _ hnf
         simp only [chunkStates, List.mem_map, List.mem_range]
         exact ⟨i, hi, by simp [chunkState, hcn]⟩
-      exact split_progress hobj hrole hl hn hf hph hc hclean hnd hkp hjn hcs (by simpa using hsc)
+      exact split_progress hobj hrole hl hn hf hph hc hclean hnd hkp hjn hcs (by simpa using hsc) halive
 
 
 /-! ### nodes -/
@@ -985,7 +987,8 @@ current can take a step — whatever has failed elsewhere -/
 theorem node_progress {s : State} (hobj : ObjsInv s) (hrole : RoleInv s) (hl : LaunchInv s)
     {n : Nat} (hn : n < s.nodes.length) (hph : s.phase = .normal)
     (hfresh : s.cachedOf n = nodeState s n) (hpre : ∀ p ∈ s.pre n, nodeDone s p = true)
-    (hclean : CleanNode s n) (hnd : nodeDone s n = false) : ∃ e, Progress s e := by
+    (hclean : CleanNode s n) (halive : AliveNode s n) (hnd : nodeDone s n = false) :
+    ∃ e, Progress s e ∧ e.node = some n := by
   have hc : s.cachedOf n = .running := by rw [hfresh]; exact nodeState_running_of hobj hclean hpre hnd
   have : ∃ f, f ∈ s.forksOf n ∧ fmDone s n f = false := by
     apply Classical.byContradiction
@@ -998,7 +1001,7 @@ theorem node_progress {s : State} (hobj : ObjsInv s) (hrole : RoleInv s) (hl : L
       · rfl
     rw [hnd] at this; cases this
   obtain ⟨f, hf, hfd⟩ := this
-  exact fork_progress hobj hrole hl hn hf hph hc hclean hfd
+  exact fork_progress hobj hrole hl hn hf hph hc hclean hfd halive
 
 theorem mu_nodestate_lt {s : State} {n : Nat} (hen : enabled s (.nodestate n (nodeState s n)) = true)
     (hne : s.cachedOf n ≠ nodeState s n) :
@@ -1091,12 +1094,12 @@ theorem exists_ready {s : State} (hac : Acyclic s.nodes) :
 progress event (quiet, enabled, lowering the measure) exists -/
 theorem finished_or_progress {s : State} (hobj : ObjsInv s) (hrole : RoleInv s)
     (hl : LaunchInv s) (hfr : ForkRange s) (hac : Acyclic s.nodes) (hph : s.phase ≠ .crashed)
-    (hclean : ∀ n, CleanNode s n) : Finished s ∨ ∃ e, Progress s e := by
+    (hclean : ∀ n, CleanNode s n) (halive : AliveInv s) : Finished s ∨ ∃ e, Progress s e := by
   by_cases hst : ∃ n, n < s.nodes.length ∧ s.cachedOf n ≠ nodeState s n
   · obtain ⟨n, hn, hne⟩ := hst
     have hen : enabled s (.nodestate n (nodeState s n)) = true := by
       simp [enabled, guards, hph, hn]
-    exact Or.inr ⟨_, by simp [Ev.quiet, Ev.failing, Ev.structural], hen, mu_nodestate_lt hen hne⟩
+    exact Or.inr ⟨_, by simp [Ev.sched], hen, mu_nodestate_lt hen hne⟩
   have hfresh : ∀ n, n < s.nodes.length → s.cachedOf n = nodeState s n := by
     intro n hn
     apply Classical.byContradiction
@@ -1108,7 +1111,7 @@ theorem finished_or_progress {s : State} (hobj : ObjsInv s) (hrole : RoleInv s)
     have hall : allFresh s = true := by
       simp only [allFresh, List.all_eq_true, List.mem_range, beq_iff_eq]
       exact hfresh
-    exact ⟨.refresh, by simp [Ev.quiet, Ev.failing, Ev.structural],
+    exact ⟨.refresh, by simp [Ev.sched, hp],
       by simp [enabled, guards, hp, hall], mu_refresh_lt hp⟩
   · by_cases hdone : ∀ n, n < s.nodes.length → nodeDone s n = true
     · exact Or.inl ⟨hp, fun n hn => ⟨hdone n hn, hfresh n hn⟩⟩
@@ -1124,7 +1127,8 @@ theorem finished_or_progress {s : State} (hobj : ObjsInv s) (hrole : RoleInv s)
       obtain ⟨n, hnd⟩ := this
       obtain ⟨m, hmd, hmp⟩ := exists_ready hac n hnd
       have hm := not_done_lt hfr hmd
-      exact node_progress hobj hrole hl hm hp (hfresh m hm) hmp (hclean m) hmd
+      obtain ⟨e, he, _⟩ := node_progress hobj hrole hl hm hp (hfresh m hm) hmp (hclean m) (halive m) hmd
+      exact ⟨e, he⟩
   · exact absurd hp hph
 
 
@@ -1202,6 +1206,203 @@ theorem fair_run_finishes {s0 : State} {σ : Nat → State} {es : Nat → Ev} (h
     obtain ⟨j', hj', hlt⟩ := hfair j hnf h
     exact absurd hlt (hrest j' (by omega))
 
+/-! ### quiescent states: no progress event -/
+
+theorem mu_congr {s s' : State} (hn : s'.nodes = s.nodes) (hf : ∀ n, s'.forksOf n = s.forksOf n)
+    (hc : ∀ n f, s'.nch n f = s.nch n f) (hm : ∀ o, s'.m o = s.m o)
+    (hl : s'.launches = s.launches) (hi : s'.inc = s.inc)
+    (hcd : ∀ n, s'.cachedOf n = s.cachedOf n) (hp : s'.phase = s.phase) : mu s' = mu s := by
+  have hst : ∀ o, s'.st o = s.st o := fun o => by simp [State.st, hm]
+  have hns := nodeState_congr hn hf hc hst
+  have hpb : potB s' = potB s := by
+    unfold potB potObj
+    rw [objs_congr hn hf hc]
+    simp [hm, hl, hi]
+  simp only [mu, noChunks_congr hn hf hc, hpb, hn, stale_congr hn hcd hns, hp]
+
+theorem forkPairs_mem {s : State} {n f : Nat} (h : s.hasObj ⟨n, f, .fork⟩ = true) :
+    (n, f) ∈ forkPairs s := by
+  simp only [State.hasObj, Bool.and_eq_true, decide_eq_true_eq, List.contains_eq_mem,
+    and_true] at h
+  simp only [forkPairs, List.mem_flatMap, List.mem_range, List.mem_map]
+  exact ⟨n, h.1, f, by simpa using h.2, rfl⟩
+
+/-- in a quiescent state no event of the scheduler/job/journal alphabet is enabled and
+lowers the measure -/
+theorem no_progress_of_quiescent {s : State} (hobj : ObjsInv s) (h : quiescent s = true) :
+    ∀ e, ¬ Progress s e := by
+  simp only [quiescent, Bool.and_eq_true, beq_iff_eq, List.all_eq_true, Bool.not_eq_true',
+    Bool.or_eq_true, List.isEmpty_iff] at h
+  obtain ⟨⟨⟨⟨hph, hfresh⟩, halive⟩, hobjs⟩, hmk⟩ := h
+  intro e ⟨hs, hen, hlt⟩
+  have same : ∀ o x, (s.m o).seen.has x = true →
+      (∀ o', (if o = o' then put x (s.m o) else s.m o') = s.m o') ∧
+      (∀ o', (if o = o' then see x (s.m o) else s.m o') = s.m o') := by
+    intro o x hx
+    have hd := (hobj o).sub x hx
+    constructor <;> intro o' <;> split
+    · rename_i heq; subst heq
+      simp [put, add_of_has _ _ hx, add_of_has _ _ hd]
+    · rfl
+    · rename_i heq; subst heq
+      simp [see, add_of_has _ _ hx]
+    · rfl
+  cases e <;> simp only [Ev.sched, beq_iff_eq] at hs <;> try (cases hs; done)
+  case nodestate n st =>
+    obtain ⟨_, hn, hst⟩ := en_nodestate hen
+    have hc : s.cachedOf n = st := by
+      simp only [allFresh, List.all_eq_true, List.mem_range, beq_iff_eq] at hfresh
+      rw [hst]; exact hfresh n hn
+    have : mu (apply s (.nodestate n st)) = mu s := by
+      apply mu_congr (apply_nodes _ _) (fun n' => by simp [apply_forksOf])
+        (fun n' f => by simp [apply_nch]) (fun o => by simp [apply_m])
+        (by simp [apply_launches]) (by simp [apply_inc]) _ (by simp [apply_phase])
+      intro n'; rw [apply_cachedOf]; simp only []; split
+      · rename_i heq; subst heq; exact hc.symm
+      · rfl
+    rw [this] at hlt; exact lexLt_irrefl _ hlt
+  case refresh => rw [hph] at hs; cases hs
+  case launch o =>
+    have hl := en_launch hen
+    have := (hobjs o (hasObj_mem_objs (launchOk_phase hl).2.2.2.2)).1.2
+    rw [hl] at this; cases this
+  case W o x =>
+    subst hs
+    obtain ⟨_, hh, hw⟩ := en_W hen
+    have ho := hobjs o (hasObj_mem_objs hh)
+    rcases hw with hd | hw
+    · have hseen : (s.m o).seen.has .complete = true := by
+        rcases ho.1.1 with h' | h'
+        · simp only [SSet.has] at hd; rw [hd] at h'; cases h'
+        · exact h'
+      have : mu (apply s (.W o .complete)) = mu s := by
+        apply mu_congr (apply_nodes _ _) (fun n' => by simp [apply_forksOf])
+          (fun n' f => by simp [apply_nch]) _ (by simp [apply_launches]) (by simp [apply_inc])
+          (fun n' => by simp [apply_cachedOf]) (by simp [apply_phase])
+        intro o'; rw [apply_m]; exact (same o _ hseen).1 o'
+      rw [this] at hlt; exact lexLt_irrefl _ hlt
+    · rw [ho.2] at hw; cases hw
+  case mkchunks n f k =>
+    have hen1 : enabled s (.mkchunks n f 1) = true := by
+      have h' := hen
+      simp [enabled, guards, hph] at h' ⊢
+      simp_all
+    have hh : s.hasObj ⟨n, f, .fork⟩ = true := by
+      simp only [enabled, guards, List.all_cons, Bool.and_eq_true] at hen; exact hen.2.1
+    have := hmk (n, f) (forkPairs_mem hh)
+    simp only at this
+    rw [hen1] at this; cases this
+  case joblog o =>
+    have := (en_joblog' hen).2.2; rw [halive] at this; cases this
+  case jobend o x =>
+    have := (en_jobend' hen).2.2.2.2.2.2; rw [halive] at this; cases this
+  case R o x =>
+    subst hs
+    obtain ⟨_, hh, hd⟩ := en_R hen
+    have ho := hobjs o (hasObj_mem_objs hh)
+    have hseen : (s.m o).seen.has .complete = true := by
+      rcases ho.1.1 with h' | h'
+      · simp only [SSet.has] at hd; rw [hd] at h'; cases h'
+      · exact h'
+    have : mu (apply s (.R o .complete)) = mu s := by
+      apply mu_congr (apply_nodes _ _) (fun n' => by simp [apply_forksOf])
+        (fun n' f => by simp [apply_nch]) _ (by simp [apply_launches]) (by simp [apply_inc])
+        (fun n' => by simp [apply_cachedOf]) (by simp [apply_phase])
+      intro o'; rw [apply_m]; exact (same o _ hseen).2 o'
+    rw [this] at hlt; exact lexLt_irrefl _ hlt
+
+/-! ### liveness of submitted jobs (ghost `alive`) -/
+
+theorem apply_alive (s : State) (e : Ev) : (apply s e).alive =
+    match e with
+    | .launch o => o :: s.alive.filter (· != o)
+    | .jobend o _ => s.alive.filter (· != o)
+    | .silentfail o => s.alive.filter (· != o)
+    | .killed o => s.alive.filter (· != o)
+    | .reset o => s.alive.filter (· != o)
+    | _ => s.alive := by cases e <;> rfl
+
+/-- every event of a run without failures and interruptions keeps "submitted and unfinished ⇒
+alive": only `killed`, `crash`-time deaths and failures take a job's life without its
+`_complete` -/
+theorem aliveInv_step {s : State} {e : Ev} (hen : enabled s e = true)
+    (hff : e.failureFree = true) (h : AliveInv s) : AliveInv (apply s e) := by
+  intro n f r hr hj hc
+  have hne : e ≠ .reset ⟨n, f, r⟩ := ff_ne_reset hff _
+  -- `_complete` was absent before as well
+  have hc0 : (s.m ⟨n, f, r⟩).disk.has .complete = false := by
+    cases hx : (s.m ⟨n, f, r⟩).disk.has .complete
+    · rfl
+    · have := disk_mono (e := e) hne (by simp) hx; rw [hc] at this; cases this
+  rw [apply_alive]
+  cases hj0 : (s.m ⟨n, f, r⟩).disk.has .jobinfo
+  · -- newly submitted
+    rcases disk_origin hen hj0 hj with ⟨_, hw⟩ | he | ⟨he, _⟩ | ⟨_, he⟩ | ⟨_, he⟩
+    · rw [mrpWriteOk_jobinfo] at hw; cases hw
+    · subst he; have := (en_jobend hen).2.1; simp at this
+    · subst he; simp
+    · cases he
+    · cases he
+  · have hal := h n f r hr hj0 hc0
+    cases e <;> simp only [] <;> try exact hal
+    case launch o =>
+      by_cases ho : o = ⟨n, f, r⟩
+      · subst ho; simp
+      · apply List.mem_cons_of_mem
+        simp only [List.mem_filter, bne_iff_ne, ne_eq]
+        exact ⟨hal, fun h' => ho h'.symm⟩
+    case jobend o x =>
+      have hx : x = .complete := by simpa [Ev.failureFree] using hff
+      subst hx
+      by_cases ho : o = ⟨n, f, r⟩
+      · subst ho
+        have : ((apply s (.jobend ⟨n, f, r⟩ .complete)).m ⟨n, f, r⟩).disk.has .complete = true := by
+          rw [apply_m]; simp [toDisk, has_add]
+        rw [this] at hc; cases hc
+      · simp only [List.mem_filter, bne_iff_ne, ne_eq]
+        exact ⟨hal, fun h' => ho h'.symm⟩
+    case silentfail o => simp [Ev.failureFree] at hff
+    case killed o => simp [Ev.failureFree] at hff
+    case reset o => simp [Ev.failureFree] at hff
+
+theorem aliveInv_init (g : List NodeInfo) : AliveInv (init g) := by
+  intro n f r _ hj; simp [init, State.m, aget] at hj
+
+/-- decidable sufficient check of `AliveInv` on a concrete state -/
+def aliveOk (s : State) : Bool :=
+  s.metas.all fun p => p.1.r == Role.fork || !p.2.disk.jobinfo || p.2.disk.complete || s.alive.contains p.1
+
+theorem aget_mem_or_default {κ α} [DecidableEq κ] (d : α) (l : List (κ × α)) (k : κ) :
+    aget d l k = d ∨ (k, aget d l k) ∈ l := by
+  induction l with
+  | nil => exact Or.inl rfl
+  | cons p r ih =>
+    obtain ⟨a, b⟩ := p
+    by_cases h : a = k
+    · subst h; right; simp [aget]
+    · simp only [aget, h, if_false]
+      rcases ih with h' | h'
+      · exact Or.inl h'
+      · exact Or.inr (List.mem_cons_of_mem _ h')
+
+theorem aliveInv_of_check {s : State} (h : aliveOk s = true) : AliveInv s := by
+  intro n f r hr hj hc
+  rcases aget_mem_or_default ({} : Meta) s.metas (⟨n, f, r⟩ : Obj) with hd | hm
+  · have : s.m ⟨n, f, r⟩ = {} := hd
+    rw [this] at hj; simp at hj
+  · simp only [aliveOk, List.all_eq_true] at h
+    have := h _ hm
+    simp only [Bool.or_eq_true, beq_iff_eq, Bool.not_eq_true', List.contains_eq_mem,
+      decide_eq_true_eq] at this
+    simp only [SSet.has] at hj hc
+    have hj' : (aget ({} : Meta) s.metas (⟨n, f, r⟩ : Obj)).disk.jobinfo = true := hj
+    have hc' : (aget ({} : Meta) s.metas (⟨n, f, r⟩ : Obj)).disk.complete = false := hc
+    rcases this with ((h1 | h1) | h1) | h1
+    · exact absurd h1 hr
+    · rw [hj'] at h1; cases h1
+    · rw [hc'] at h1; cases h1
+    · exact h1
+
 /-! ### failure-free runs from the initial state -/
 
 theorem reach_nodes {g : List NodeInfo} {s : State} (h : Reach g s) : s.nodes = g := by
@@ -1231,9 +1432,28 @@ theorem ff_clean {s : State} (hff : FFInv s) (n : Nat) : CleanNode s n :=
 
 /-- deadlock freedom for failure-free histories -/
 theorem ff_finished_or_progress {g : List NodeInfo} {s : State} (hr : Reach g s) (hff : FFInv s)
-    (hac : Acyclic g) : Finished s ∨ ∃ e, Progress s e :=
+    (halive : AliveInv s) (hac : Acyclic g) : Finished s ∨ ∃ e, Progress s e :=
   finished_or_progress (reach_objsInv hr) (reach_roleInv hr) (reach_launchInv hr)
-    (reach_forkRange hr) (by rw [reach_nodes hr]; exact hac) hff.alive (ff_clean hff)
+    (reach_forkRange hr) (by rw [reach_nodes hr]; exact hac) hff.alive (ff_clean hff) halive
+
+theorem run_aliveInv {g : List NodeInfo} {σ : Nat → State} {es : Nat → Ev}
+    (hrun : Run (init g) σ es) (hff : ∀ i, (es i).failureFree = true) : ∀ i, AliveInv (σ i) := by
+  intro i
+  induction i with
+  | zero => rw [hrun.start]; exact aliveInv_init g
+  | succ i ih => rw [hrun.next]; exact aliveInv_step (hrun.en i) (hff i) ih
+
+theorem replay_aliveInv {evs : List Ev} {i : Nat} {s0 s : State}
+    (h0 : AliveInv s0) (hfe : FailureFree evs) (h : replayFrom i s0 evs = .ok s) : AliveInv s := by
+  induction evs generalizing i s0 with
+  | nil => simp [replayFrom] at h; subst h; exact h0
+  | cons e r ih =>
+    simp only [replayFrom] at h
+    split at h
+    · rename_i hen
+      exact ih (aliveInv_step hen (hfe e (List.mem_cons_self ..)) h0)
+        (fun e' he' => hfe e' (List.mem_cons_of_mem _ he')) h
+    · cases h
 
 theorem ff_quiet {s : State} {e : Ev} (h1 : e.failureFree = true) (h2 : e.structural s = false) :
     e.quiet s = true := by
@@ -1367,10 +1587,10 @@ theorem interrupted_run_finishes {s0 : State} {σ : Nat → State} {es : Nat →
     (hrun : Run s0 σ es) (h0 : LiveInv s0) (hac : Acyclic s0.nodes)
     (hnf : ∀ i, (es i).failing = false) {K : Nat}
     (hK : ∀ i, K ≤ i → (es i).structural (σ i) = false) (hup : (σ K).phase ≠ .crashed)
-    (hfair : Fair σ) : ∃ M, K ≤ M ∧ ∀ j, M ≤ j → Finished (σ j) := by
+    (halive : AliveInv (σ K)) (hfair : Fair σ) : ∃ M, K ≤ M ∧ ∀ j, M ≤ j → Finished (σ j) := by
   have hinv := run_liveInv hrun h0 hnf
   have hq : ∀ i, K ≤ i → (es i).quiet (σ i) = true := fun i hi => nf_quiet (hnf i) (hK i hi)
-  have halive : ∀ d, (σ (K + d)).phase ≠ .crashed := by
+  have hup' : ∀ d, (σ (K + d)).phase ≠ .crashed := by
     intro d
     induction d with
     | zero => exact hup
@@ -1378,14 +1598,26 @@ theorem interrupted_run_finishes {s0 : State} {σ : Nat → State} {es : Nat →
       have : K + (d + 1) = K + d + 1 := by omega
       rw [this, hrun.next]
       exact quiet_alive (hq _ (by omega)) ih
+  have hali : ∀ d, AliveInv (σ (K + d)) := by
+    intro d
+    induction d with
+    | zero => exact halive
+    | succ d ih =>
+      have : K + (d + 1) = K + d + 1 := by omega
+      rw [this, hrun.next]
+      exact aliveInv_step (hrun.en _) (quiet_ff (hq _ (by omega))) ih
   apply fair_run_finishes hrun hfair hq
   intro i hi
   have hal : (σ i).phase ≠ .crashed := by
-    have := halive (i - K)
+    have := hup' (i - K)
+    have hh : K + (i - K) = i := by omega
+    rwa [hh] at this
+  have hali' : AliveInv (σ i) := by
+    have := hali (i - K)
     have hh : K + (i - K) = i := by omega
     rwa [hh] at this
   exact finished_or_progress (hinv i).obj (hinv i).role (hinv i).launch (hinv i).range
-    (by rw [run_nodes hrun i]; exact hac) hal (hinv i).clean
+    (by rw [run_nodes hrun i]; exact hac) hal (hinv i).clean hali'
 
 
 theorem reach_liveInv {g : List NodeInfo} {s : State} (h : Reach g s) (hc : CleanInv s) :
